@@ -31,6 +31,11 @@ def run(rep):
         rng.shuffle(ws)
         for w in ws[:4 if quick else 25]:
             cases.append({'root': root, 'word': w})
+    # unchecked roots of types WITHOUT element content (simple / empty / simple-content types) holding children all the same
+    leafy = [n for n, t in sorted(g['elements'].items()) if (t[0][6:] if t[0].startswith('<anon>') else t[0]) not in g['xsd_particles']]
+    names = sorted(g['sym'])
+    for root in rng.sample(leafy, min(len(leafy), 12 if quick else 120)):
+        cases.append({'root': root, 'word': [rng.choice(names) for _ in range(rng.randrange(1, 4))], 'unchecked_root': True})
     n = C.NPROC
     chunks = [cases[i::n] for i in range(n)]
     procs = [subprocess.Popen([C.PY, '-W', 'ignore', os.path.join(C.VERIF, 'corr', 'c14_runner.py')], stdin=subprocess.PIPE, stdout=subprocess.PIPE,
